@@ -209,6 +209,82 @@ def skel_verifyEd25519Signature : List String :=
 def skel_GetED25519PublicKey : List String :=
   ["x, err := base64.RawURLEncoding.DecodeString(jwk.X)", "if err != nil {", "  return nil, error(...)", "}", "if len(x) != ed25519.PublicKeySize {", "  return nil, error(...)", "}", "jsonBytes, err := json.Marshal(jwk)", "if err != nil {", "  return nil, err", "}", "var internalJWK JWK", "err = internalJWK.UnmarshalJSON(jsonBytes)", "if err != nil {", "  return nil, err", "}", "pubKey, ok := internalJWK.Key.(ed25519.PublicKey)", "if !ok {", "  return nil, error(...)", "}", "if len(pubKey) != ed25519.PublicKeySize {", "  return nil, error(...)", "}", "return pubKey, nil"]
 
+/-- pkg/util/ecsigner/signer.go:Sign -/
+def skel_signer_Sign : List String :=
+  ["if signer.privateKey == nil {", "  return nil, error(...)", "}", "hasher := getHasher(signer.privateKey.Curve).New()", "_, err := hasher.Write(msg)", "if err != nil {", "  return nil, err", "}", "hashed := hasher.Sum(nil)", "r, s, err := ecdsa.Sign(rand.Reader, signer.privateKey, hashed)", "if err != nil {", "  return nil, err", "}", "curveBits := signer.privateKey.Curve.Params().BitSize", "const bitsInByte = 8", "keyBytes := curveBits / bitsInByte", "if curveBits%bitsInByte > 0 {", "  keyBytes++", "}", "return append(copyPadded(r.Bytes(), keyBytes), copyPadded(s.Bytes(), keyBytes)...), nil"]
+
+/-- pkg/util/ecsigner/signer.go:getHasher -/
+def skel_signer_getHasher : List String :=
+  ["switch curve {", "case elliptic.P256():", "  return crypto.SHA256", "case elliptic.P384():", "  return crypto.SHA384", "case elliptic.P521():", "  return crypto.SHA512", "case btcec.S256():", "  return crypto.SHA256", "default:", "  return crypto.SHA256", "}"]
+
+/-- pkg/util/ecsigner/signer.go:copyPadded -/
+def skel_signer_copyPadded : List String :=
+  ["dest := make([]byte, size)", "copy(dest[size-len(source):], source)", "return dest"]
+
+/-- pkg/util/ecsigner/signer.go:Headers -/
+def skel_signer_Headers : List String :=
+  ["headers := make(jws.Headers)", "if signer.alg != \"\" {", "  headers[jws.HeaderAlgorithm] = signer.alg", "}", "if signer.kid != \"\" {", "  headers[jws.HeaderKeyID] = signer.kid", "}", "return headers"]
+
+/-- pkg/util/signutil/signature.go:SignPayload -/
+def skel_signature_SignPayload : List String :=
+  ["alg, ok := signer.Headers().Algorithm()", "if !ok || alg == \"\" {", "  return \"\", error(...)", "}", "jwsSignature, err := internaljws.NewJWS(signer.Headers(), nil, payload, signer)", "if err != nil {", "  return \"\", err", "}", "return jwsSignature.SerializeCompact(false)"]
+
+/-- pkg/util/signutil/signature.go:SignModel -/
+def skel_signature_SignModel : List String :=
+  ["signedDataBytes, err := canonicalizer.MarshalCanonical(model)", "if err != nil {", "  return \"\", err", "}", "return SignPayload(signedDataBytes, signer)"]
+
+/-- pkg/util/pubkey/jwk.go:GetPublicKeyJWK -/
+def skel_jwk_GetPublicKeyJWK : List String :=
+  ["internalJWK := internal.JWK{...}", "switch key := pubKey.(type) { case ed25519.PublicKey, *rsa.PublicKey: case *ecdsa.PublicKey: ecdsaPubKey, ok := pubKey.(*ecdsa.PublicKey) if !ok { return nil, errors.New(\"unexpected interface\") } if ecdsaPubKey.Curve == btcec.S256() { internalJWK.Kty = secp256k1Kty internalJWK.Crv = secp256k1Crv } default: return nil, fmt.Errorf(\"unknown key type '%s'\", reflect.TypeOf(key)) }", "jsonJWK, err := internalJWK.MarshalJSON()", "if err != nil {", "  return nil, err", "}", "var jwk jws.JWK", "err = json.Unmarshal(jsonJWK, &jwk)", "if err != nil {", "  return nil, err", "}", "return &jwk, nil"]
+
+/-- pkg/jwsutil/jwk.go:UnmarshalJSON -/
+def skel_jwk_UnmarshalJSON : List String :=
+  ["var key jsonWebKey", "marshalErr := json.Unmarshal(jwkBytes, &key)", "if marshalErr != nil {", "  return error(...)", "}", "if isSecp256k1(key.Kty, key.Crv) {", "  jwk, err := unmarshalSecp256k1(&key)", "  if err != nil {", "    return error(...)", "  }", "  *j = *jwk", "} else {", "  var joseJWK jose.JSONWebKey", "  err := json.Unmarshal(jwkBytes, &joseJWK)", "  if err != nil {", "    return error(...)", "  }", "  j.JSONWebKey = joseJWK", "}", "j.Kty = key.Kty", "j.Crv = key.Crv", "return nil"]
+
+/-- pkg/jwsutil/jwk.go:MarshalJSON -/
+def skel_jwk_MarshalJSON : List String :=
+  ["if isSecp256k1(j.Kty, j.Crv) {", "  return marshalSecp256k1(j)", "}", "return (&j.JSONWebKey).MarshalJSON()"]
+
+/-- pkg/jwsutil/jwk.go:unmarshalSecp256k1 -/
+def skel_jwk_unmarshalSecp256k1 : List String :=
+  ["if jwk.X == nil {", "  return nil, ErrInvalidKey", "}", "if jwk.Y == nil {", "  return nil, ErrInvalidKey", "}", "curve := btcec.S256()", "if curveSize(curve) != len(jwk.X.data) {", "  return nil, ErrInvalidKey", "}", "if curveSize(curve) != len(jwk.Y.data) {", "  return nil, ErrInvalidKey", "}", "if jwk.D != nil && dSize(curve) != len(jwk.D.data) {", "  return nil, ErrInvalidKey", "}", "x := jwk.X.bigInt()", "y := jwk.Y.bigInt()", "if !curve.IsOnCurve(x, y) {", "  return nil, ErrInvalidKey", "}", "var key interface{}", "if jwk.D != nil {", "  key = &ecdsa.PrivateKey{...}", "} else {", "  key = &ecdsa.PublicKey{...}", "}", "return &JWK{...}, nil"]
+
+/-- pkg/jwsutil/jwk.go:marshalSecp256k1 -/
+def skel_jwk_marshalSecp256k1 : List String :=
+  ["var raw jsonWebKey", "switch ecdsaKey := jwk.Key.(type) { case *ecdsa.PublicKey: raw = jsonWebKey{ Kty: secp256k1Kty, Crv: secp256k1Crv, X: newFixedSizeBuffer(ecdsaKey.X.Bytes(), secp256k1Size), Y: newFixedSizeBuffer(ecdsaKey.Y.Bytes(), secp256k1Size), } case *ecdsa.PrivateKey: raw = jsonWebKey{ Kty: secp256k1Kty, Crv: secp256k1Crv, X: newFixedSizeBuffer(ecdsaKey.X.Bytes(), secp256k1Size), Y: newFixedSizeBuffer(ecdsaKey.Y.Bytes(), secp256k1Size), D: newFixedSizeBuffer(ecdsaKey.D.Bytes(), dSize(ecdsaKey.Curve)), } }", "raw.Kid = jwk.KeyID", "raw.Alg = jwk.Algorithm", "raw.Use = jwk.Use", "return json.Marshal(raw)"]
+
+/-- pkg/jwsutil/jwk.go:newFixedSizeBuffer -/
+def skel_jwk_newFixedSizeBuffer : List String :=
+  ["paddedData := make([]byte, length-len(data))", "return &byteBuffer{...}"]
+
+/-- pkg/jwsutil/jwk.go:curveSize -/
+def skel_jwk_curveSize : List String :=
+  ["bits := crv.Params().BitSize", "div := bits / bitsPerByte", "mod := bits % bitsPerByte", "if mod == 0 {", "  return div", "}", "return div + 1"]
+
+/-- pkg/jwsutil/jwk.go:isSecp256k1 -/
+def skel_jwk_isSecp256k1 : List String :=
+  ["return strings.EqualFold(kty, secp256k1Kty) && strings.EqualFold(crv, secp256k1Crv)"]
+
+/-- pkg/jwsutil/jws.go:NewJWS -/
+def skel_jws_NewJWS : List String :=
+  ["headers := mergeHeaders(protectedHeaders, signer.Headers())", "s := &JSONWebSignature{...}", "signature, err := sign(s.joseHeaders, payload, signer)", "if err != nil {", "  return nil, error(...)", "}", "s.signature = signature", "return s, nil"]
+
+/-- pkg/jwsutil/jws.go:SerializeCompact -/
+def skel_jws_SerializeCompact : List String :=
+  ["byteHeaders, err := json.Marshal(s.joseHeaders)", "if err != nil {", "  return \"\", error(...)", "}", "b64Headers := base64.RawURLEncoding.EncodeToString(byteHeaders)", "b64Payload := \"\"", "if !detached {", "  b64Payload = base64.RawURLEncoding.EncodeToString(s.Payload)", "}", "b64Signature := base64.RawURLEncoding.EncodeToString(s.signature)", "return fmt.Sprintf(\"%s.%s.%s\", b64Headers, b64Payload, b64Signature), nil"]
+
+/-- pkg/jwsutil/jws.go:sign -/
+def skel_jws_sign : List String :=
+  ["err := checkJWSHeaders(joseHeaders)", "if err != nil {", "  return nil, error(...)", "}", "sigInput, err := signingInput(joseHeaders, payload)", "if err != nil {", "  return nil, error(...)", "}", "signature, err := signer.Sign(sigInput)", "if err != nil {", "  return nil, error(...)", "}", "return signature, nil"]
+
+/-- pkg/jwsutil/jws.go:mergeHeaders -/
+def skel_jws_mergeHeaders : List String :=
+  ["h := make(jws.Headers, len(h1)+len(h2))", "for k := range h2 {", "  h[k] = v", "}", "for k := range h1 {", "  h[k] = v", "}", "return h"]
+
+/-- pkg/jws/jwk.go:Validate -/
+def skel_jwk_Validate : List String :=
+  ["if jwk.Kty == \"\" {", "  return error(...)", "}", "if jwk.Kty == \"RSA\" {", "  if jwk.N == \"\" {", "    return error(...)", "  }", "  if jwk.E == \"\" {", "    return error(...)", "  }", "} else {", "  if jwk.Crv == \"\" {", "    return error(...)", "  }", "  if jwk.X == \"\" {", "    return error(...)", "  }", "}", "return nil"]
+
 /-- pkg/jwsutil/signature.go -/
 def skel_parseEllipticCurve : List String :=
   ["switch curve {", "case \"P-256\":", "  return &ellipticCurve{...}", "case \"P-384\":", "  return &ellipticCurve{...}", "case \"P-521\":", "  return &ellipticCurve{...}", "case \"secp256k1\":", "  return &ellipticCurve{...}", "default:", "  return nil", "}"]
